@@ -144,6 +144,18 @@ class Tuple(Ty):
         return _sort_cache[k]
 
 
+class Named(Tuple):
+    """namedtuple: a Tuple whose components can also be read by attribute name."""
+
+    def __init__(self, nm, **fields):
+        Tuple.__init__(self, *fields.values())
+        self.nm = nm
+        self.names = tuple(fields.keys())
+
+    def name(self):
+        return self.nm + Tuple.name(self)[5:]
+
+
 class Dict(Ty):
     """dict as (domain, values, insertion-ordered key list).
 
